@@ -232,12 +232,13 @@ PROPS["C09"] = {
     "stubs": [CLOCK, BT],
     "assumptions": ["one inductive step from every state satisfying fill <= max, refill >= 1 covers histories of any length"],
     "harnesses": [
-        H(_S, "c09_from_config_total_and_full_16bit", "from_config: never panics, full bucket, burst default rate/10, refill = rate/10, rejects only rate<10 or zero burst", "rates <= 2^16, all optional bursts", timeout=900),
-        H(_S, "c09_from_config_total_and_full_32bit", "same", "all NonZeroU32 rates", tier="thorough", timeout=3000),
-        H(_S, "c09_consume_step_8bit", "one consume step from any reachable state: no refill before a full period, refill = whole elapsed periods x refill capped at max, admit iff tokens remain, deadline >= one period after the refill clock, refill clock within one period of now", "8-bit ranges", timeout=900),
-        H(_S, "c09_consume_step_12bit", "same", "12-bit ranges", tier="thorough", timeout=3000),
-        H(_S, "c09_throttle_deadline_exact_6bit", "throttle deadline = first period boundary with positive fill (resume no later, not earlier)", "6-bit ranges", timeout=900),
-        H(_S, "c09_consume_never_panics", "no byte count / elapsed time / reachable state makes consume panic or leave fill > max", "rate up to u32::MAX, n any usize, clock < 2^41 ms", timeout=900),
+        H(_S, "c09_from_config_total_and_full_16bit", "from_config: never panics, full bucket, burst default rate/10, refill = rate/10, rejects only rate<10 or zero burst", "rates <= 2^16, all optional bursts", timeout=900, stub_env=True, stubs=["Instant::now"]),
+        H(_S, "c09_from_config_total_and_full_32bit", "same", "all NonZeroU32 rates", tier="thorough", timeout=3000, stub_env=True, stubs=["Instant::now"]),
+        H(_S, "c09_consume_step_8bit", "one consume step from any reachable state: no refill before a full period, refill = whole elapsed periods x refill capped at max, admit iff tokens remain, deadline >= one period after the refill clock, refill clock within one period of now", "8-bit ranges", timeout=900, stub_env=True, stubs=["Instant::now"]),
+        H(_S, "c09_consume_step_12bit", "same", "12-bit ranges", tier="thorough", timeout=3000, stub_env=True, stubs=["Instant::now"]),
+        H(_S, "c09_throttle_deadline_exact_6bit", "throttle deadline = first period boundary with positive fill (resume no later, not earlier)", "6-bit ranges", timeout=900, stub_env=True, stubs=["Instant::now"]),
+        H(_S, "c09_consume_never_panics", "no byte count / elapsed time / reachable state makes consume panic or leave fill > max", "rate up to u32::MAX, n any usize, clock < 2^41 ms", timeout=900, stub_env=True, stubs=["Instant::now"]),
+        H(_S, "c09_public_new_then_consume_never_panics", "Bucket::new with any i64 burst/rate and any whole-millisecond period, then one consume after any time advance: no panic, fill <= max, Ok iff tokens remain", "max, rate: any i64; period: any u32 ms; clock < 2^41 ms; n any usize", timeout=1800, stub_env=True, stubs=["Instant::now"]),
         W(_S, "c09_witness"),
     ],
 }
